@@ -744,3 +744,27 @@ mod tests {
         }
     }
 }
+
+/// Verification hook: runs the real argument rendering (`write_args`) for `args` with `dir` as the
+/// save directory. Returns (setup code, text following `exec "$@"`, original output file).
+#[cfg(feature = "verif")]
+pub(crate) fn verif_render_args(
+    dir: &Path,
+    args: &[String],
+    is_rsp_file: bool,
+) -> Result<(Vec<u8>, Vec<u8>, Option<String>)> {
+    let state = SaveDirState::new(dir.to_owned(), args.to_vec());
+    let mut setup = Vec::new();
+    let mut out = Vec::new();
+    let mut original_output_file = None;
+    let mut at_file_counter = 0;
+    state.write_args(
+        &state.args,
+        &mut out,
+        &mut setup,
+        &mut original_output_file,
+        &mut at_file_counter,
+        is_rsp_file,
+    )?;
+    Ok((setup, out, original_output_file))
+}
